@@ -109,6 +109,21 @@ def run(report, tier):
         part.pop('labels')
         report.merge(part)
     validate_traces(report, batch, 'C18 behaviours', keep=(('namesOK', 'Warn'),))
+    # repeated solves of one Problem with non-continuous variables (cache hits): the gate must act on every solve
+    from . import c13
+    g = histrun.history_graph(report)
+    hs = [h for h in g.triples() if sum(1 for o in h if o['op'] == 'Solve') >= 2
+          and any(o['op'] == 'SetObjective' and o['obj']['nc'] for o in h) and h[-1]['op'] == 'Solve']
+    sample = common.rng('C18').sample(hs, min(500 if tier == 'quick' else 5000, len(hs)))
+    batch = []
+    for part in histrun.parallel(c13.replay_chunk, sample):
+        batch += part.pop('batch')
+        # the comparison with a fresh problem is C13's; here it only counts when the integrality behaviour differs
+        keep = {k: v for k, v in part['violations'].items() if 'IntegerVariableError' in str(v) or 'warning' in k}
+        part['counts'] = {k: part['counts'][k] for k in keep}
+        part['violations'] = keep
+        report.merge(part)
+    validate_traces(report, batch, 'C18 repeated solves', keep=(('namesOK', 'Warn'),))
     items = [(r, d, m, n) for r in ('scalar', 'vector', 'slice', 'matrix-row', 'transpose-col', 'sym-diagonal') for d in ('integer', 'binary')
              for m in ('auto', 'auto-lp', 'linprog', 'highs-ds', 'SLSQP', 'trust-constr', 'L-BFGS-B', 'TNC', 'COBYLA', 'Nelder-Mead', 'Powell', 'BFGS')
              for n in (0, 1) if not (m in ('L-BFGS-B', 'TNC', 'Nelder-Mead', 'Powell', 'BFGS') and n)]
@@ -121,7 +136,8 @@ def run(report, tier):
     return report.finish(
         rule='(1) every complete solve behaviour of MC_Sched on a model with a non-continuous variable (15 methods x strict x outcomes) replayed '
              'through stubbed seams: strict raises IntegerVariableError before any solver entry, otherwise exactly one warning per gate '
-             'passage naming exactly the non-continuous variables (trace validation, C18 invariants in every state); (2) integer / binary '
+             'passage naming exactly the non-continuous variables (trace validation, C18 invariants in every state); histories of the model graph with '
+             'repeated solves (cache hits) of such a model likewise, with the real solvers; (2) integer / binary '
              'declared through 6 routes x 12 methods: the relaxed solve equals the solve of the continuous twin; (3) every view enumerated by '
              'TLC over binary / integer vectors and matrices: each element carries the declared domain and bounds (binary => [0, 1]).',
         exhaustive=True)
